@@ -215,29 +215,47 @@ class ExtObj(HObj):
     """Extension point: a heap object kind defined outside the core (pyvc/ext_*.py).  The core only
     dispatches to these methods; anything not overridden is Unsupported (never silently skipped)."""
 
+    def _no(self, what):
+        from .engine import Unsupported
+
+        raise Unsupported(f'{type(self).__name__}: {what}')
+
     def ext_truth(self, ex, ref):
-        raise NotImplementedError
+        self._no('truth value')
 
     def ext_len(self, ex, ref):
-        raise NotImplementedError
+        self._no('len')
 
     def ext_for(self, ex, ref, stmt, spec):
         """execute the for statement `stmt` over this object (spec: its LoopSpec or None)"""
-        raise NotImplementedError
+        self._no('for loop')
 
     def ext_method(self, ex, ref, name, args, kwargs):
-        raise NotImplementedError
+        self._no(f'method {name}')
 
     def ext_subscript(self, ex, ref, i):
-        raise NotImplementedError
+        self._no('subscript')
+
+    def ext_delitem(self, ex, ref, i):
+        self._no('del subscript')
+
+    def ext_binop(self, ex, ref, op, other, reflected):
+        self._no('binary operator')
+
+    def ext_equal(self, ex, ref, other):
+        self._no('==')
 
     def ext_havoc(self, ex, ref, hint):
         """forget the content (loop / await / callee havoc of a location holding this object)"""
-        raise NotImplementedError
+        self._no('havoc')
 
     def ext_unchanged(self, ex, other):
         """term / bool: `other` (same object in another heap) has the same content (frame check)"""
-        raise NotImplementedError
+        self._no('frame check')
+
+    def ext_model(self, mv):
+        """concretise under a model: mv(value) -> plain description (replay)"""
+        self._no('concretisation')
 
 
 class Frame(HObj):
